@@ -114,6 +114,11 @@ fn ser<T: for<'a> WriteBox<&'a mut Vec<u8>>>(b: &T) -> Vec<u8> {
 /// skip), two bytes per step over a region of zeros.  The containers are assembled here, the leaf
 /// boxes are written by the library, the esds box by hand (the library always writes minimal lengths).
 pub fn build_esds(tn: u32, region: usize) -> Vec<u8> {
+    build_esds_at(tn, region, false)
+}
+/// `inner`: the over-long length sits in the DecoderConfigDescriptor (tag 4) while the esds box and the
+/// ES descriptor (tag 3) lengths reach to the same far position, i.e. are consistent with each other
+pub fn build_esds_at(tn: u32, region: usize, inner: bool) -> Vec<u8> {
     let ftyp = ser(&FtypBox { major_brand: FourCC::from(*b"isom"), minor_version: 0, compatible_brands: vec![] });
     let mut mvhd = MvhdBox::default();
     mvhd.timescale = 1000;
@@ -127,10 +132,19 @@ pub fn build_esds(tn: u32, region: usize) -> Vec<u8> {
         hdlr.handler_type = FourCC::from(*b"soun");
         // ES_Descr (tag 3, four length bytes), ES_ID, flags, DecoderConfig (tag 4, 15 bytes: AAC LC 44.1 kHz
         // stereo with its 2-byte DecoderSpecificInfo), SLConfig (tag 6)
-        let mut es = vec![3u8, 0x80 | ((es_len >> 21) & 0x7F) as u8, 0x80 | ((es_len >> 14) & 0x7F) as u8, 0x80 | ((es_len >> 7) & 0x7F) as u8, (es_len & 0x7F) as u8];
+        let l4 = |n: u32| [0x80 | ((n >> 21) & 0x7F) as u8, 0x80 | ((n >> 14) & 0x7F) as u8, 0x80 | ((n >> 7) & 0x7F) as u8, (n & 0x7F) as u8];
+        let mut es = vec![3u8];
+        es.extend_from_slice(&l4(es_len));
         es.extend_from_slice(&[0, 1, 0]);
-        es.extend_from_slice(&[4, 17, 0x40, 0x15, 0, 0, 0, 0, 0, 0, 0, 0, 0, 0, 0, 5, 2, 0x12, 0x10]);
-        es.extend_from_slice(&[6, 1, 2]);
+        if inner {
+            // the DecoderConfigDescriptor payload starts 8 bytes after the ES descriptor's payload
+            es.push(4);
+            es.extend_from_slice(&l4(es_len.saturating_sub(8)));
+            es.extend_from_slice(&[0x40, 0x15, 0, 0, 0, 0, 0, 0, 0, 0, 0, 0, 0, 5, 2, 0x12, 0x10]);
+        } else {
+            es.extend_from_slice(&[4, 17, 0x40, 0x15, 0, 0, 0, 0, 0, 0, 0, 0, 0, 0, 0, 5, 2, 0x12, 0x10]);
+            es.extend_from_slice(&[6, 1, 2]);
+        }
         let mut esds = vec![0u8, 0, 0, 0];
         esds.extend_from_slice(&es);
         let mut mp4a = vec![0u8, 0, 0, 0, 0, 0, 0, 1, 0, 0, 0, 0, 0, 0, 0, 0, 0, 2, 0, 16, 0, 0, 0, 0, 0xAC, 0x44, 0, 0];
@@ -212,6 +226,7 @@ pub fn build_fragwalk(k: u32, m: u32) -> Vec<u8> {
 pub fn run(tn: u32, k: u32, kind: &str, id: u64, out: &mut Out) {
     let file = match kind {
         "esds" => build_esds(tn, k as usize * 1024),
+        "esds4" => build_esds_at(tn, k as usize * 1024, true),
         "fragwalk" => build_fragwalk(tn, k),
         _ => build(tn, k, kind == "avc"),
     };
